@@ -15,6 +15,9 @@ type UnionBranch struct {
 	Table string `json:"table"`
 	Where *sq.E  `json:"where,omitempty"`
 	All   bool   `json:"all,omitempty"` // operator joining this branch to the ones before it (ignored for the first)
+	// Suffix, when set, renames every output column of this branch (<name><suffix>): rows of different
+	// branches then differ in their column names
+	Suffix string `json:"suffix,omitempty"`
 }
 
 type C06Case struct {
@@ -33,13 +36,13 @@ func init() {
 		ID:    "C06",
 		Title: "DISTINCT removes exactly the duplicates; UNION [ALL] concatenates [and dedups]",
 		Rule: "rapid draws tables with heavy duplication (value pools of 2-3 per column), select lists of columns and simple expressions, and " +
-			"either SELECT DISTINCT (oracle: reference first-occurrence sequence) or a union chain of 2-4 branches over the same output columns " +
+			"either SELECT DISTINCT (oracle: reference first-occurrence sequence; also SELECT DISTINCT * over heterogeneous rows whose key sets differ at equal width) or a union chain of 2-4 branches (a fifth of the later branches rename their output columns) " +
 			"with any mix of UNION / UNION ALL and an optional trailing LIMIT (oracle: left-associative reference; pure UNION ALL chains compared " +
 			"as sequence, others as multiset with the reference's multiplicities; LIMIT: length min(n,|combined|), exact prefix for pure UNION ALL " +
 			"chains, else a sub-multiset of the combined result that is duplicate-free when the last operator is UNION). Non-trivial: >=1 duplicate " +
 			"output row / overlapping branches.",
 		Assumptions: []string{
-			"same column kind per output column across branches; no ORDER BY on a union",
+			"branches that share a column name hold the same scalar kind in it; no ORDER BY on a union",
 		},
 		Gen:      genC06,
 		New:      func() any { return &C06Case{} },
@@ -99,8 +102,25 @@ func genC06(t *rapid.T) any {
 	if rapid.IntRange(0, 2).Draw(t, "expr") == 0 {
 		c.Items = append(c.Items, SelItem{Expr: sq.Bin(rapid.SampledFrom([]string{"+", "*", "%"}).Draw(t, "exprop"), sq.Col(names[2]), sq.Num(2)), Alias: "e1"})
 	}
-	c.Mode = rapid.SampledFrom([]string{"distinct", "union", "union"}).Draw(t, "mode")
+	c.Mode = rapid.SampledFrom([]string{"distinct", "distinct-star", "union", "union", "union"}).Draw(t, "mode")
 	sel := renderSelect(c.Items, 0, nil)
+	if c.Mode == "distinct-star" {
+		// heterogeneous rows: every row has `id` plus one or two of the optional keys x / y / z, so rows of
+		// equal width differ in their column names
+		n := rapid.IntRange(0, 8).Draw(t, "h.nrows")
+		h := []any{}
+		for r := 0; r < n; r++ {
+			row := map[string]any{"id": rapid.SampledFrom([]float64{1, 2}).Draw(t, fmt.Sprintf("h.r%d.id", r))}
+			for _, k := range rapid.SampledFrom([][]string{{"x"}, {"y"}, {"z"}, {"x", "y"}, {"y", "z"}, {}}).Draw(t, fmt.Sprintf("h.r%d.keys", r)) {
+				row[k] = rapid.SampledFrom([]any{1.0, 2.0, "1", nil}).Draw(t, fmt.Sprintf("h.r%d.%s", r, k))
+			}
+			h = append(h, row)
+		}
+		c.Doc["h"] = h
+		c.Items = nil
+		c.SQL = "SELECT DISTINCT * FROM h"
+		return c
+	}
 	if c.Mode == "distinct" {
 		if rapid.IntRange(0, 2).Draw(t, "haswhere") == 0 {
 			c.Where = genPred(t, tb, &PredSpec{Core: true}, 1, "w")
@@ -126,8 +146,11 @@ func genC06(t *rapid.T) any {
 		if rapid.IntRange(0, 3).Draw(t, fmt.Sprintf("b%d.haswhere", b)) == 0 {
 			br.Where = genPred(t, tb, &PredSpec{Core: true}, 1, fmt.Sprintf("b%d.w", b))
 		}
+		if b > 0 && rapid.IntRange(0, 4).Draw(t, fmt.Sprintf("b%d.rename", b)) == 0 {
+			br.Suffix = rapid.SampledFrom([]string{"_2", "x"}).Draw(t, fmt.Sprintf("b%d.suffix", b))
+		}
 		c.Branches = append(c.Branches, br)
-		s := "SELECT " + sel + " FROM " + key
+		s := "SELECT " + renderSelect(c.branchItems(br), 0, nil) + " FROM " + key
 		if br.Where != nil {
 			s += " WHERE " + sq.Render(br.Where, nil)
 		}
@@ -147,6 +170,22 @@ func genC06(t *rapid.T) any {
 		c.SQL += fmt.Sprintf(" LIMIT %d", c.Limit)
 	}
 	return c
+}
+
+// branchItems returns the select list of one union branch (columns renamed when the branch has a suffix).
+func (c *C06Case) branchItems(br UnionBranch) []SelItem {
+	if br.Suffix == "" {
+		return c.Items
+	}
+	out := make([]SelItem, len(c.Items))
+	for i, it := range c.Items {
+		name := it.Alias
+		if name == "" {
+			name = it.Expr.S
+		}
+		out[i] = SelItem{Expr: it.Expr, Alias: name + br.Suffix}
+	}
+	return out
 }
 
 func dedupRows(rows []any) []any {
@@ -169,9 +208,14 @@ func dedupRows(rows []any) []any {
 func checkC06(c *C06Case) Result {
 	res := Result{Labels: []string{"mode:" + c.Mode}}
 	env := &sq.Env{Doc: c.Doc}
-	if c.Mode == "distinct" {
+	if c.Mode == "distinct" || c.Mode == "distinct-star" {
 		rows, _ := c.Doc["t"].([]any)
-		all, err := refProject(rows, c.Items, 0, c.Where, env)
+		star := 0
+		if c.Mode == "distinct-star" {
+			rows, _ = c.Doc["h"].([]any)
+			star = 1
+		}
+		all, err := refProject(rows, c.Items, star, c.Where, env)
 		if err != nil {
 			discardOrHarness(&res, err)
 			return res
@@ -196,7 +240,7 @@ func checkC06(c *C06Case) Result {
 	ops := ""
 	for i, br := range c.Branches {
 		rows, _ := c.Doc[br.Table].([]any)
-		part, err := refProject(rows, c.Items, 0, br.Where, env)
+		part, err := refProject(rows, c.branchItems(br), 0, br.Where, env)
 		if err != nil {
 			discardOrHarness(&res, err)
 			return res
